@@ -39,6 +39,11 @@ CHECKS = {
    text="For four (thorough: six) stored layouts (single domain, gapped domains, contiguous rolled-over domains, deletion cuts) x three channels (8-byte, index, variable-length) x bounds (unbounded; starting between samples and ending on a sample) x auto chunk sizes: every command sequence up to the depth bound over SeekFirst/SeekLast/SeekLE/SeekGE(15 positions)/Next/Prev(5 spans from 1ns to max)/Next/Prev(AutoSpan)/SetBounds; after every step the returned samples must equal the stored samples inside the reported view, consecutive same-direction views must be adjacent; plus every full forward/backward traversal per span must visit each sample in bounds exactly once.",
    note="in-memory xfs.MemFS; go1.26.8 toolchain; the unary iterator is driven directly (only it reports View()); a step that reports !Valid() offers no value and stale Value() content is not judged; after a failed seek or a sticky iterator error only seeks are issued; auto-span stepping has recorded known findings (KNOWN_FINDINGS.txt), identified by the shape of the disagreement.",
    design="3/C10"),
+ "C02": dict(level="fault_enumeration", engine="crashx",
+   technique="crash-point and torn-write enumeration: every prefix of the filesystem-mutation sequence of each script (crash-injecting xfs.FS), recovered with the real cesium.Open and read back in full",
+   text="For each operation script (sessions with immediate / close-time index persistence, explicit commits, file rollover, two-session layouts, time-range deletes, GC passes incl. after reopen, back-filled files, channel create/rename/delete, reopen) the script is executed once per crash point k in [0, #mutating FS calls) and per torn variant (1, m/2, m-1, 26, 52 bytes) of every write; only the first k mutating calls (create, mkdir, write, write-at, truncate, rename, remove) reach the image. Each image is opened with cesium.Open and every channel is read back: Open must succeed and each channel must hold exactly its content after some operation between the last durably completed one and the one in flight.",
+   note="process-crash model stated by the property (completed FS calls survive; no fsync); in-memory xfs.MemFS; go1.26.8 toolchain; the order of mutations inside one commit follows Go map iteration, so each crash index is taken in the run's own order and repeated (6x quick / 24x thorough); three recorded known findings (interrupted channel creation, in-place index rewrite, GC file swap) are identified by root cause from the mutation log.",
+   design="3/C02"),
 }
 NOT_YET = {}
 props = [json.loads(l) for l in open(os.path.join(HERE, "properties.jsonl"))]
